@@ -14,7 +14,6 @@ import (
 	"context"
 	"fmt"
 
-	"mosn.io/api"
 	"mosn.io/mosn/pkg/stream"
 	"mosn.io/pkg/buffer"
 	"mosn.io/pkg/variable"
@@ -34,61 +33,6 @@ func maskedEqual(a, b []byte, off, n int) bool {
 		return bytes.Equal(a, b)
 	}
 	return bytes.Equal(a[:off], b[:off]) && bytes.Equal(a[off+n:], b[off+n:])
-}
-
-func firstDiff(a, b []byte) int {
-	n := len(a)
-	if len(b) < n {
-		n = len(b)
-	}
-	for i := 0; i < n; i++ {
-		if a[i] != b[i] {
-			return i
-		}
-	}
-	if len(a) != len(b) {
-		return n
-	}
-	return -1
-}
-
-func lenClass(n int) string {
-	switch {
-	case n == 0:
-		return "0"
-	case n < 255:
-		return "<255"
-	case n <= 257:
-		return "255-257"
-	case n < 65535:
-		return "<65535"
-	case n <= 65537:
-		return "65535-65537"
-	}
-	return ">65537"
-}
-
-// decodeOne runs the real decoder on a fresh IoBuffer holding exactly `raw` (+ optional trailing bytes), the way
-// connection.doRead + streamConn.Dispatch present it. It returns the frame, the source buffer and its backing array.
-func decodeOne(cm *stream.ContextManager, p api.XProtocol, raw []byte, trailing []byte) (api.XFrame, context.Context, buffer.IoBuffer, []byte, error) {
-	src := make([]byte, len(raw)+len(trailing), len(raw)+len(trailing)+64)
-	copy(src, raw)
-	copy(src[len(raw):], trailing)
-	buf := buffer.NewIoBufferBytes(src)
-	cm.Next()
-	ctx := cm.Get()
-	fr, err := p.Decode(ctx, buf)
-	if err != nil {
-		return nil, ctx, buf, src, err
-	}
-	if fr == nil {
-		return nil, ctx, buf, src, nil
-	}
-	xf, ok := fr.(api.XFrame)
-	if !ok {
-		return nil, ctx, buf, src, fmt.Errorf("decoded object %T is not an XFrame", fr)
-	}
-	return xf, ctx, buf, src, nil
 }
 
 func c01Codec(c *lab.Ctx) {
@@ -288,13 +232,6 @@ func c01Codec(c *lab.Ctx) {
 		c.RequireAll("frames decoded: "+name, ok > 0 || c.NBatch > perCodec, fmt.Sprintf("%d", ok))
 	}
 	c.Sample(map[string]interface{}{"example_case": "bolt request: class 257 B, 3 header pairs, body 65536 B, id 4294967295 -> SetRequestId(1) -> Encode; compare bytes with id masked; scribble read buffer; compare again"})
-}
-
-func truncate(s string, n int) string {
-	if len(s) > n {
-		return s[:n]
-	}
-	return s
 }
 
 func c01ErrClass(err error) string {
